@@ -33,12 +33,17 @@ func mkdumps(args []string) int {
 	n, seen := 0, 0
 	eachCase(openIn(op), func(raw []byte) {
 		var c struct {
-			Src []int `json:"src"`
+			Src   []int  `json:"src"`
+			Shape string `json:"shape"`
+			N     int    `json:"n"`
 		}
-		if json.Unmarshal(raw, &c) != nil || len(c.Src) == 0 {
+		if json.Unmarshal(raw, &c) != nil || (len(c.Src) == 0 && c.Shape == "") {
 			return
 		}
 		src := bytesOf(c.Src)
+		if c.Shape != "" {
+			src = []byte(scaleSource(c.Shape, c.N))
+		}
 		if !s.note(src, true, raw) || n >= max {
 			return
 		}
